@@ -89,3 +89,103 @@ func hostPort(host string, port int) string {
 	}
 	return fmt.Sprintf("%s:%d", host, port)
 }
+
+// Representation preferences: what the client says about the answer it would like (media type, language,
+// charset, coding) and what kind of client it says it is. The property statement quantifies over "any
+// arrival pattern" of requests of a client address and makes the refusal ("429 and not forwarded")
+// depend on the bucket alone; these headers are therefore varied on admitted AND refused requests and
+// the oracles stay exactly the same.
+type negotiation struct {
+	Name string
+	Hdr  [][2]string // field lines in order; a repeated name is sent as a second field line
+}
+
+var negotiations = []negotiation{
+	{Name: "accept-json", Hdr: [][2]string{{"Accept", "application/json"}}},
+	{Name: "accept-json-axios", Hdr: [][2]string{{"Accept", "application/json, text/plain, */*"}, {"User-Agent", "axios/1.6.7"}}},
+	{Name: "accept-json-mixed-case", Hdr: [][2]string{{"Accept", "Application/JSON; charset=UTF-8"}}},
+	{Name: "accept-json-low-q", Hdr: [][2]string{{"Accept", "text/html;q=0.9, application/json;q=0.1"}}},
+	{Name: "accept-problem-json", Hdr: [][2]string{{"Accept", "application/problem+json, application/json;q=0.5"}}},
+	{Name: "accept-json-xhr", Hdr: [][2]string{{"Accept", "application/json, text/javascript, */*; q=0.01"}, {"X-Requested-With", "XMLHttpRequest"}}},
+	{Name: "accept-two-lines", Hdr: [][2]string{{"Accept", "text/html"}, {"Accept", "application/json"}}},
+	{Name: "accept-two-lines-json-first", Hdr: [][2]string{{"Accept", "application/json"}, {"Accept", "text/html"}}},
+	{Name: "accept-xml", Hdr: [][2]string{{"Accept", "application/xml, text/xml;q=0.9"}}},
+	{Name: "accept-html", Hdr: [][2]string{{"Accept", "text/html"}}},
+	{Name: "accept-browser", Hdr: [][2]string{{"Accept", "text/html,application/xhtml+xml,application/xml;q=0.9,image/avif,image/webp,*/*;q=0.8"}, {"Accept-Language", "en-US,en;q=0.5"}, {"User-Agent", "Mozilla/5.0 (X11; Linux x86_64; rv:128.0) Gecko/20100101 Firefox/128.0"}, {"Upgrade-Insecure-Requests", "1"}}},
+	{Name: "accept-any", Hdr: [][2]string{{"Accept", "*/*"}}},
+	{Name: "accept-curl", Hdr: [][2]string{{"Accept", "*/*"}, {"User-Agent", "curl/8.5.0"}}},
+	{Name: "accept-text", Hdr: [][2]string{{"Accept", "text/plain"}}},
+	{Name: "accept-image", Hdr: [][2]string{{"Accept", "image/avif,image/webp,image/*;q=0.8"}}},
+	{Name: "accept-empty", Hdr: [][2]string{{"Accept", ""}}},
+	{Name: "accept-nothing-acceptable", Hdr: [][2]string{{"Accept", "application/x-no-such-type"}}},
+	{Name: "accept-msgpack-grpc-web", Hdr: [][2]string{{"Accept", "application/grpc-web-text, application/msgpack"}}},
+	{Name: "accept-yaml-json", Hdr: [][2]string{{"Accept", "application/yaml, application/json"}, {"User-Agent", "kubectl/v1.30.0"}}},
+	{Name: "accept-malformed", Hdr: [][2]string{{"Accept", ";;q=, /"}}},
+	{Name: "language-charset", Hdr: [][2]string{{"Accept-Language", "de-DE, de;q=0.8, *;q=0.1"}, {"Accept-Charset", "utf-8, iso-8859-1;q=0.5"}}},
+	{Name: "coding-identity-only", Hdr: [][2]string{{"Accept-Encoding", "identity, *;q=0"}}},
+	{Name: "content-type-json-no-accept", Hdr: [][2]string{{"Content-Type", "application/json"}}},
+	{Name: "prefer-minimal", Hdr: [][2]string{{"Prefer", "return=minimal"}, {"Accept", "application/json"}}},
+	{Name: "user-agent-go", Hdr: [][2]string{{"User-Agent", "Go-http-client/1.1"}}},
+	{Name: "user-agent-empty", Hdr: [][2]string{{"User-Agent", ""}}},
+}
+
+// negotiationPlan says what the requests of one case say about the answer they want: nothing (mode 0),
+// every client identity is one kind of client and sends the same preferences on each of its requests
+// (mode 1), or every request draws its own (mode 2, 0 = none).
+type negotiationPlan struct {
+	Mode  int   `json:"mode"`
+	PerID []int `json:"per_identity,omitempty"` // 1 + index into negotiations, 0 = none
+}
+
+func drawNegotiationPlan(t *rapid.T, identities int) negotiationPlan {
+	p := negotiationPlan{Mode: rapid.IntRange(0, 3).Draw(t, "negotiation_mode")}
+	if p.Mode == 3 {
+		p.Mode = 2
+	}
+	if p.Mode == 1 {
+		for i := 0; i < identities; i++ {
+			p.PerID = append(p.PerID, rapid.IntRange(0, len(negotiations)).Draw(t, "negotiation_of_identity"))
+		}
+	}
+	return p
+}
+
+// draw returns the preferences (1 + index, 0 = none) of the next request of identity id (-1 = none).
+func (p negotiationPlan) draw(t *rapid.T, id int) int {
+	switch p.Mode {
+	case 1:
+		if id >= 0 && id < len(p.PerID) {
+			return p.PerID[id]
+		}
+		return rapid.IntRange(0, len(negotiations)).Draw(t, "negotiation")
+	case 2:
+		if rapid.IntRange(0, 3).Draw(t, "negotiates") == 0 {
+			return 0
+		}
+		return rapid.IntRange(1, len(negotiations)).Draw(t, "negotiation")
+	}
+	return 0
+}
+
+// apply puts the preferences n (1 + index) on top of whatever the request wears already.
+func applyNegotiation(h interface {
+	Set(string, string)
+	Add(string, string)
+}, n int) {
+	if n <= 0 {
+		return
+	}
+	set := map[string]bool{}
+	for _, kv := range negotiations[n-1].Hdr {
+		if set[kv[0]] {
+			h.Add(kv[0], kv[1])
+		} else {
+			h.Set(kv[0], kv[1])
+			set[kv[0]] = true
+		}
+	}
+}
+
+func (p negotiationPlan) Label() string {
+	return [...]string{"negotiation=none", "negotiation=per-client", "negotiation=per-request"}[p.Mode]
+}
